@@ -78,33 +78,59 @@ def filterParents (g : Graph) : List Rev → List Rev
 def removedTags (g : Graph) (tags : Tags) (oldTip : Rev) (parents : List Rev) : List Nat :=
   (tags.filter fun t => (findUniqueAncestors g oldTip parents).contains t.2).map (·.1)
 
+/-- the branch's own tags after `remove_tags`: those not on a unique ancestor -/
+def keepTagsOutside (g : Graph) (tags : Tags) (oldTip : Rev) (parents : List Rev) : Tags :=
+  tags.filter fun t => !(findUniqueAncestors g oldTip parents).contains t.2
+
 def dropTags (tags : Tags) (names : List Nat) : Tags := tags.filter fun t => !names.contains t.1
+
+/-- the master `uncommit` looks at: none with `local=True` -/
+def masterFor (isLocal : Bool) (st : St) : Option Branch := if isLocal then none else st.master
+
+/-- `old_tip != master.last_revision()` -/
+def outOfDate (master : Option Branch) (tip : Tip) : Bool :=
+  match master with
+  | some m => m.tip != tip
+  | none => false
+
+/-- `tree.set_parent_ids(parents)` refuses a ghost as first parent (only possible
+when the new tip is null: and a removed merge takes its place) -/
+def ghostFirst (g : Graph) (parents : List Rev) : Bool :=
+  match parents with
+  | p :: _ => !present g p
+  | [] => false
+
+/-- the state written by `uncommit` once the walk has produced the new tip `t`
+and the pending-merge list `pm` -/
+def finish (g : Graph) (st : St) (old : Rev) (t : Tip) (pm : List Rev) (d : Nat) (keepTags isLocal : Bool) : St :=
+  let newRevno := st.br.revno - d
+  let parents := t.toList ++ pm.reverse
+  let names := if keepTags then [] else removedTags g st.br.tags old parents
+  { br := { tip := t, revno := newRevno,
+            tags := if keepTags then st.br.tags else keepTagsOutside g st.br.tags old parents },
+    -- BasicTags.delete_tag of a bound branch also deletes in the master, `local` or not
+    master := st.master.map fun m =>
+      { tip := if isLocal then m.tip else t, revno := if isLocal then m.revno else newRevno,
+        tags := dropTags m.tags names },
+    parents := filterParents g parents }
 
 /-- `uncommit(branch, revno=old_revno - d + 1, tree=tree, local=…, keep_tags=…)`:
 `d ≥ 1` is the number of revisions removed (the command guarantees
 `1 ≤ revno ≤ old_revno`). -/
 def uncommit (g : Graph) (st : St) (d : Nat) (keepTags isLocal : Bool) : Except Err St :=
-  let p0 := st.parents.tail                 -- pending_merges = tree.get_parent_ids()[1:]
   if isLocal && st.master.isNone then .error .localRequiresBound
   else
-    let master := if isLocal then none else st.master
     match st.br.tip with
     | none => .error .emptyBranch
     | some old =>
-      if (match master with | some m => m.tip != st.br.tip | none => false) then .error .outOfDate
+      if outOfDate (masterFor isLocal st) st.br.tip then .error .outOfDate
       else
-        match walk g old d p0 with
+        -- pending_merges = tree.get_parent_ids()[1:]
+        match walk g old d st.parents.tail with
         | .error e => .error e
-        | .ok (newTip, pm) =>
-          let newRevno := st.br.revno - d
-          let parents := newTip.toList ++ pm.reverse
-          let names := if keepTags then [] else removedTags g st.br.tags old parents
-          -- BasicTags.delete_tag of a bound branch also deletes in the master, `local` or not
-          let master' := st.master.map fun m =>
-            { tip := if isLocal then m.tip else newTip, revno := if isLocal then m.revno else newRevno,
-              tags := dropTags m.tags names }
-          .ok { br := { tip := newTip, revno := newRevno, tags := dropTags st.br.tags names },
-                master := master', parents := filterParents g parents }
+        | .ok (t, pm) =>
+          if ghostFirst g (t.toList ++ pm.reverse) then .error .ghostParent
+          else .ok (finish g st old t pm d keepTags isLocal)
 
 /-- the bookkeeping of a commit of the working tree: a new revision `r` whose
 parents are the tree's parents; branch (and master) tip and revno advance; the
